@@ -184,7 +184,7 @@ Proof.
     + left; reflexivity.
 Qed.
 
-Lemma fold_admit_inv outer ns : 0 < outer -> (forall n, In n ns -> 0 < n) ->
+Lemma fold_take_inv outer ns : 0 < outer -> (forall n, In n ns -> 0 < n) ->
   forall st, adm_inv outer st -> adm_inv outer (fold_left (try_take outer) ns st).
 Proof.
   intros Ho. induction ns as [|n ns IH]; intros Hpos st Hst; simpl; [assumption|].
@@ -192,20 +192,20 @@ Proof.
   apply try_take_inv; [assumption|apply Hpos; left; reflexivity|assumption].
 Qed.
 
-Lemma fold_admit_mono outer ns : forall st t, In t (fst st) -> In t (fst (fold_left (try_take outer) ns st)).
+Lemma fold_take_mono outer ns : forall st t, In t (fst st) -> In t (fst (fold_left (try_take outer) ns st)).
 Proof.
   induction ns as [|n ns IH]; intros st t H; simpl; [assumption|].
   apply IH. apply try_take_mono. assumption.
 Qed.
 
-Lemma fold_admit_has outer ns : 0 < outer -> (forall n, In n ns -> 0 < n) ->
+Lemma fold_take_has outer ns : 0 < outer -> (forall n, In n ns -> 0 < n) ->
   forall st, adm_inv outer st ->
   forall m, In m ns -> m <= outer ->
   In (cdiv outer (cdiv outer m)) (fst (fold_left (try_take outer) ns st)).
 Proof.
   intros Ho. induction ns as [|n ns IH]; intros Hpos st Hst m Hm Hle; [destruct Hm|].
   simpl. destruct Hm as [->|Hm].
-  - apply fold_admit_mono. apply try_take_has; try assumption. apply Hpos; left; reflexivity.
+  - apply fold_take_mono. apply try_take_has; try assumption. apply Hpos; left; reflexivity.
   - apply IH; try assumption; [intros; apply Hpos; right; assumption|].
     apply try_take_inv; [assumption|apply Hpos; left; reflexivity|assumption].
 Qed.
@@ -223,7 +223,7 @@ Proof.
   { intros n Hn. apply in_map_iff in Hn. destruct Hn as [j [<- Hj]]. apply range1_In in Hj. nia. }
   split; [assumption|].
   apply try_take_inv; [assumption|assumption|].
-  apply fold_admit_inv; [assumption|assumption|apply adm_inv_init].
+  apply fold_take_inv; [assumption|assumption|apply adm_inv_init].
 Qed.
 
 Lemma imperfect_bounded outer inner t : 0 < inner -> 0 < outer ->
@@ -242,7 +242,7 @@ Proof.
   intros Hi Ho Hm [j Hj]. unfold factor_sizes. rewrite sort_uniq_In.
   apply try_take_mono.
   destruct (imperfect_state_inv outer inner Hi Ho) as [Hpos _].
-  apply fold_admit_has; try assumption; [apply adm_inv_init| |lia].
+  apply fold_take_has; try assumption; [apply adm_inv_init| |lia].
   apply in_map_iff. exists j. split; [lia|]. apply range1_In.
   assert (0 < j) by nia. split; [lia|].
   rewrite Z2Nat.id by (apply Z.div_pos; lia).
@@ -255,7 +255,7 @@ Proof.
   intros Hi Ho. unfold factor_sizes. rewrite sort_uniq_In.
   set (st := fold_left _ _ _).
   assert (Hst : adm_inv outer st).
-  { apply fold_admit_inv; [assumption| |apply adm_inv_init].
+  { apply fold_take_inv; [assumption| |apply adm_inv_init].
     intros n Hn. apply in_map_iff in Hn. destruct Hn as [j [<- Hj]]. apply range1_In in Hj. nia. }
   pose proof (try_take_has outer st outer Ho Ho (Z.le_refl _) Hst) as H.
   assert (E1 : cdiv outer outer = 1) by (unfold cdiv; nia).
